@@ -416,8 +416,12 @@ def run_shard(spec, res):
                 res.case(["identical", d, d2], True)
                 res.count("identical_answer:" + str(ans))
                 if ans is True:
+                    verdict = _renaming_equiv(d, d2, tmo, rng)
+                    if verdict is None:
+                        res.count("identical_true_not_judged:too_many_variables")
+                        continue
                     res.count("judged:identical_true")
-                    if not _renaming_equiv(d, d2, tmo, rng):
+                    if not verdict:
                         res.violation({"kind": "utility", "util": "identical", "what": "claimed-identical-but-no-renaming-makes-them-equal", "case": [d, d2]})
         except claripy.errors.ClaripyZeroDivisionError:
             res.count("div0")
@@ -482,9 +486,12 @@ def _perturb(d, rng):
 
 
 def _renaming_equiv(d1, d2, tmo, rng):
-    """Is there a sort-preserving bijection of variables making d1 == d2 valid?"""
-    import z3
+    """Is there a consistent (sort-preserving, injective) renaming of variables making d1 == d2 valid?
 
+    The descriptors may mention variables the built expressions no longer contain (claripy folds `r & q & False`
+    to False while building) or that the value does not depend on, so the two variable sets need not have the
+    same size: each side is padded with fresh names per sort and every sort-preserving bijection of the padded
+    sets is tried.  Returns None when the search is too large to decide (not judged)."""
     from vf.ref import bvsem, z3ref
 
     v1, v2 = bvsem.variables(d1), bvsem.variables(d2)
@@ -493,15 +500,24 @@ def _renaming_equiv(d1, d2, tmo, rng):
     if not bvsem.is_bool(d1) and bvsem.width(d1) != bvsem.width(d2):
         return False
     n1, n2 = sorted(v1), sorted(v2)
-    if len(n1) != len(n2):
-        # variables that do not influence the value could differ; be permissive only when provably equal as is
-        pass
-    if len(n1) > 4 or len(n2) > 4:
-        return True  # not judged beyond 4 variables
+    v1, v2 = dict(v1), dict(v2)
+    for srt in sorted(set(v1.values()) | set(v2.values()), key=repr):
+        c1 = sum(1 for x in n1 if v1[x] == srt)
+        c2 = sum(1 for x in n2 if v2[x] == srt)
+        for k in range(abs(c1 - c2)):
+            nm = f"__pad{len(n1) + len(n2)}_{k}"
+            if c1 < c2:
+                n1.append(nm)
+                v1[nm] = srt
+            else:
+                n2.append(nm)
+                v2[nm] = srt
+    if len(n1) > 5:
+        return None  # not judged beyond 5 (padded) variables
     T1 = z3ref.term(d1)
-    if len(n1) != len(n2):
-        return False if _definitely_depends(d1, d2) else True
-    for perm in itertools.permutations(n2):
+    # the identity on shared names first (the common case), then every other bijection
+    perms = sorted(itertools.permutations(n2), key=lambda perm: -sum(1 for a, b in zip(n1, perm) if a == b))
+    for perm in perms:
         if any(v1[a] != v2[b] for a, b in zip(n1, perm)):
             continue
         mapping = dict(zip(perm, n1))
@@ -518,10 +534,6 @@ def _renaming_equiv(d1, d2, tmo, rng):
         if st in ("eq", "sampled"):
             return True
     return False
-
-
-def _definitely_depends(d1, d2):
-    return True
 
 
 def K_bv_identical_answers_from_vsa(w):
